@@ -401,6 +401,20 @@ fn sl_obj_unseal_arrays(w: &Wire, _s: &[u8]) -> Option<OpenOut> {
     outv(b.unseal::<_, _, Vec<u8>>(&kp))
 }
 
+fn bx_obj_allvec_open(w: &Wire, _s: &[u8]) -> Option<OpenOut> {
+    let (mac, body) = split16(&w.ct)?;
+    let b: DryocBox<Vec<u8>, Vec<u8>, Vec<u8>> = DryocBox::from_parts(mac.to_vec(), body.to_vec(), None);
+    outv(b.decrypt::<Vec<u8>, Vec<u8>, Vec<u8>, Vec<u8>>(&w.nonce.to_vec(), &w.pk.to_vec(), &w.sk.to_vec()))
+}
+fn sl_obj_allvec_open(w: &Wire, _s: &[u8]) -> Option<OpenOut> {
+    if w.ct.len() < 48 {
+        return None;
+    }
+    let b: DryocBox<Vec<u8>, Vec<u8>, Vec<u8>> = DryocBox::from_parts(w.ct[32..48].to_vec(), w.ct[48..].to_vec(), Some(w.ct[..32].to_vec()));
+    let kp: KeyPair<Vec<u8>, Vec<u8>> = KeyPair { public_key: w.pk.to_vec(), secret_key: w.sk.to_vec() };
+    outv(b.unseal::<_, _, Vec<u8>>(&kp))
+}
+
 /// forms that only exist with the `nightly` feature (heap / locked containers)
 pub fn is_nightly_form(name: &str) -> bool {
     name.contains("Heap") || name.to_lowercase().contains("locked")
@@ -441,6 +455,8 @@ pub fn open_forms() -> Vec<OpenForm> {
         OpenForm { name: "crypto_box_seal_open", family: Seal, f: sl_open, costly: true },
         OpenForm { name: "VecBox(box)::from_sealed_bytes+unseal_to_vec", family: Seal, f: sl_obj_unseal, costly: true },
         OpenForm { name: "DryocBox<array,array,Vec>::from_parts+unseal", family: Seal, f: sl_obj_unseal_arrays, costly: true },
+        OpenForm { name: "DryocBox<Vec,Vec,Vec>::from_parts+decrypt(Vec nonce, Vec keys)", family: Box, f: bx_obj_allvec_open, costly: true },
+        OpenForm { name: "DryocBox<Vec,Vec,Vec>::from_parts+unseal(Vec key pair)", family: Seal, f: sl_obj_allvec_open, costly: true },
     ];
     #[cfg(feature = "nightly")]
     {
@@ -463,7 +479,53 @@ pub struct Plain {
     pub pk: [u8; 32],
     /// sender secret key (box)
     pub sk: [u8; 32],
-    pub msg: Vec<u8>,
+    pub msg: Msg,
+}
+
+/// the message as the caller holds it: a sub-slice that starts at a varying offset 0..=7 of its allocation, so that the
+/// classic functions (which take `&[u8]`) see input at every alignment mod 8
+pub struct Msg {
+    backing: Vec<u8>,
+    off: usize,
+}
+impl Msg {
+    pub fn new(bytes: &[u8]) -> Msg {
+        let k = ALIGN_CTR.with(|c| {
+            let k = c.get();
+            c.set(k + 1);
+            k
+        });
+        let mut backing = vec![0x3Cu8; bytes.len() + 16];
+        let base = backing.as_ptr() as usize;
+        let off = (8 - base % 8) % 8 + k % 8;
+        backing[off..off + bytes.len()].copy_from_slice(bytes);
+        backing.truncate(off + bytes.len());
+        Msg { backing, off }
+    }
+}
+impl Msg {
+    /// an owned (allocator-aligned) copy, for the forms that work in place
+    #[allow(clippy::should_implement_trait)]
+    pub fn clone(&self) -> Vec<u8> {
+        self.to_vec()
+    }
+}
+impl dryoc::types::Bytes for Msg {
+    fn as_slice(&self) -> &[u8] {
+        &self.backing[self.off..]
+    }
+    fn len(&self) -> usize {
+        self.backing.len() - self.off
+    }
+    fn is_empty(&self) -> bool {
+        self.backing.len() == self.off
+    }
+}
+impl std::ops::Deref for Msg {
+    type Target = [u8];
+    fn deref(&self) -> &[u8] {
+        &self.backing[self.off..]
+    }
 }
 
 /// returns the combined wire bytes (`mac||body`, sealed: `epk||mac||body`)
@@ -633,6 +695,26 @@ fn sl_obj_seal_heap(p: &Plain) -> Result<Vec<u8>, String> {
     Ok(b.to_bytes::<HeapBytes>().as_slice().to_vec())
 }
 
+// ---- every generic parameter a Vec<u8> (tag, ephemeral key, payload, keys, nonce): Vec is the one container whose
+// ---- "new" value can be empty and whose length is not fixed by its type
+fn sb_obj_allvec(p: &Plain) -> Result<Vec<u8>, String> {
+    let b: DryocSecretBox<Vec<u8>, Vec<u8>> = DryocSecretBox::encrypt(&p.msg, &p.nonce.to_vec(), &p.key.to_vec());
+    Ok(b.to_bytes::<Vec<u8>>())
+}
+fn bx_obj_allvec(p: &Plain) -> Result<Vec<u8>, String> {
+    let b: DryocBox<Vec<u8>, Vec<u8>, Vec<u8>> = es(DryocBox::encrypt(&p.msg, &p.nonce.to_vec(), &p.pk.to_vec(), &p.sk.to_vec()))?;
+    Ok(b.to_bytes::<Vec<u8>>())
+}
+fn bx_obj_allvec_precalc(p: &Plain) -> Result<Vec<u8>, String> {
+    let k = PrecalcSecretKey::precalculate(&p.pk, &p.sk);
+    let b: DryocBox<Vec<u8>, Vec<u8>, Vec<u8>> = es(DryocBox::precalc_encrypt(&p.msg, &p.nonce.to_vec(), &k))?;
+    Ok(b.to_bytes::<Vec<u8>>())
+}
+fn sl_obj_allvec(p: &Plain) -> Result<Vec<u8>, String> {
+    let b: DryocBox<Vec<u8>, Vec<u8>, Vec<u8>> = es(DryocBox::seal(&p.msg, &p.pk.to_vec()))?;
+    Ok(b.to_bytes::<Vec<u8>>())
+}
+
 pub fn enc_forms() -> Vec<EncForm> {
     use Family::*;
     let mut v = vec![
@@ -656,6 +738,10 @@ pub fn enc_forms() -> Vec<EncForm> {
         EncForm { name: "crypto_box_seal", family: Seal, f: sl_seal },
         EncForm { name: "VecBox(box)::seal_to_vecbox+to_vec", family: Seal, f: sl_obj_seal },
         EncForm { name: "DryocBox<array,array,Vec>::seal+to_bytes", family: Seal, f: sl_obj_seal_arrays },
+        EncForm { name: "DryocSecretBox<Vec,Vec>::encrypt(Vec nonce, Vec key)+to_bytes", family: Secretbox, f: sb_obj_allvec },
+        EncForm { name: "DryocBox<Vec,Vec,Vec>::encrypt(Vec nonce, Vec keys)+to_bytes", family: Box, f: bx_obj_allvec },
+        EncForm { name: "DryocBox<Vec,Vec,Vec>::precalc_encrypt(Vec nonce)+to_bytes", family: Box, f: bx_obj_allvec_precalc },
+        EncForm { name: "DryocBox<Vec,Vec,Vec>::seal(Vec pk)+to_bytes", family: Seal, f: sl_obj_allvec },
     ];
     #[cfg(feature = "nightly")]
     {
